@@ -28,10 +28,14 @@ def is_space_char(E, c):
     return z3.If(code < 128, char_in(c, ASCII_SPACE), z3.And(code >= 128, f(c)))
 
 
+ASCII_LETTER = z3.Union(z3.Range("a", "z"), z3.Range("A", "Z"))
+ASCII_ANY = z3.Range("\x00", "\x7f")
+
+
 def is_alpha_char(E, c):
+    """str.isalpha() on a 1-character string: exact on ASCII, uninterpreted (but fixed) elsewhere"""
     f = E.uf_decl("isalpha_nonascii", z3.StringSort(), z3.BoolSort())
-    code = z3.StrToCode(c)
-    return z3.If(code < 128, z3.Or(z3.And(code >= 65, code <= 90), z3.And(code >= 97, code <= 122)), z3.And(code >= 128, f(c)))
+    return z3.Or(z3.InRe(c, ASCII_LETTER), z3.And(z3.Not(z3.InRe(c, ASCII_ANY)), z3.Length(c) == 1, f(c)))
 
 
 def call_builtin(E, st, name, args, kwargs, node=None):
@@ -511,6 +515,10 @@ def str_method(E, st, s, meth, args, kwargs):
         f = E.uf_decl("str_" + meth, z3.StringSort(), z3.StringSort())
         r = f(x)
         ax = z3.Length(r) <= z3.Length(x) if meth in ("strip", "lstrip") else z3.Length(r) == z3.Length(x)
+        if meth == "lower":
+            # instances needed for str(bool).lower()
+            ax = z3.And(ax, z3.Implies(x == z3.StringVal("True"), r == z3.StringVal("true")),
+                        z3.Implies(x == z3.StringVal("False"), r == z3.StringVal("false")))
         return ok(st.assume(ax), V(STR, r))
     if meth == "rstrip":
         f = E.uf_decl("str_rstrip" if not args else "str_rstrip2", *([z3.StringSort()] * (1 + len(args)) + [z3.StringSort()]))
